@@ -832,6 +832,69 @@ func probeOutcomes(c *ev.Check) {
 	}
 }
 
+// probeOrder: the endpoint's health is what its LAST probe said - also when a probe is slow. A probe that will be
+// answered 200 after 1.5 s is under way; a second probe is triggered (the proxy error path does that) and the
+// upstream answers it 500 at once. When both are done the endpoint is not ready: the later probe said so.
+func probeOrder(c *ev.Check) {
+	ctl := ctlrig.New()
+	r := e2e.NewWithManager(ctl.C)
+	e0, u := e2e.NewUpstream("e0"), e2e.NewUpstream("e1")
+	defer func() {
+		r.Close()
+		e0.Close()
+		u.Close()
+	}()
+	if _, err := ctl.Apply(e2e.ClusterObject("pq", e0)); err != nil {
+		c.EngineError("probe-order: " + err.Error())
+		return
+	}
+	ci, _ := ctl.C.Get("pq")
+	if ci == nil {
+		c.EngineError("probe-order: cluster not created")
+		return
+	}
+	ci.VerifSetHealthCheckInterval(time.Hour)
+	if _, err := ctl.Apply(e2e.ClusterObject("pq", e0, u)); err != nil {
+		c.EngineError("probe-order: " + err.Error())
+		return
+	}
+	info, _ := ci.Endpoints.Load(u.URL())
+	for d := time.Now().Add(20 * time.Second); time.Now().Before(d) && !info.IsReady(); {
+		time.Sleep(5 * time.Millisecond)
+	}
+	if !info.IsReady() {
+		c.EngineError("probe-order: the endpoint did not become ready")
+		return
+	}
+	time.Sleep(50 * time.Millisecond)
+	waitProbes := func(n int64) bool {
+		for d := time.Now().Add(30 * time.Second); time.Now().Before(d); time.Sleep(2 * time.Millisecond) {
+			if u.ProbeCount() >= n {
+				return true
+			}
+		}
+		return false
+	}
+	base := u.ProbeCount()
+	u.SetProbeMode("slow-ok")
+	info.TriggerHealthCheck()
+	if !waitProbes(base + 1) {
+		c.EngineError("probe-order: the first triggered probe never arrived")
+		return
+	}
+	u.SetProbeMode("500")
+	info.TriggerHealthCheck()
+	if !waitProbes(base + 2) {
+		c.EngineError("probe-order: the second triggered probe never arrived")
+		return
+	}
+	time.Sleep(2 * time.Second) // both answers are in by now (1.5 s for the slow one)
+	c.Add("probe_order_cases", 1)
+	if info.IsReady() {
+		c.Violation("probing/stale-probe-outcome-recorded-last", "a probe that was answered 200 after 1.5 s was under way when a second probe was sent and answered 500 at once; with both finished the endpoint is ready - the outcome of the earlier probe was recorded over that of the later one", nil)
+	}
+}
+
 // ------------------------------------------------------------------ engine A
 
 type obsA struct {
@@ -1055,6 +1118,7 @@ func main() {
 	tasks = append(tasks, ev.Task{Name: "triggered-probes", Run: func() { triggeredProbes(c) }})
 	tasks = append(tasks, ev.Task{Name: "probe-targets", Run: func() { probeTargets(c) }})
 	tasks = append(tasks, ev.Task{Name: "probe-outcomes", Run: func() { probeOutcomes(c) }})
+	tasks = append(tasks, ev.Task{Name: "probe-order", Run: func() { probeOrder(c) }})
 	tasks = append(tasks, ev.Task{Name: "stress", Run: func() { stress(c, time.Duration(c.Pick(1500, 6000))*time.Millisecond) }})
 	bounds := []int{0, 1, 2}
 	if c.Thorough() {
